@@ -8,9 +8,12 @@
 open Conv
 
 let props : string list ref = ref []
+(* --digest-order (C20): the variable order of every snapshot is part of the case digest *)
+let digest_order = ref false
 let () =
   let rec go = function
     | "--props" :: p :: r -> props := String.split_on_char ',' p; go r
+    | "--digest-order" :: r -> digest_order := true; go r
     | _ :: r -> go r
     | [] -> ()
   in
@@ -484,6 +487,9 @@ let () =
            order_req := None
          | None -> ());
         prev_v2l := ps.v2l;
+        if !digest_order then
+          Buffer.add_string digest
+            (Printf.sprintf "%d:o%s;" step (String.concat "," (List.map string_of_int (Array.to_list ps.v2l))));
         last_gc := ps.gc;
         resolve_pending step ps
       in
